@@ -51,7 +51,10 @@ type asym struct {
 	pb    types.Object
 	env   map[types.Object]string
 	bind  map[types.Object]string // helper parameters bound to caller expressions
-	depth int
+	// struct-valued parameters and locals whose value is a key record built by a literal (directly or in a
+	// constructor helper): field name → the expression stored there, in caller terms
+	fields map[types.Object]map[string]string
+	depth  int
 	err   string
 }
 
@@ -82,6 +85,11 @@ func (s *asym) norm(e ast.Expr) string {
 	case *ast.BasicLit:
 		return x.Value
 	case *ast.SelectorExpr:
+		if fm, ok := s.structFields(x.X); ok {
+			if v, ok := fm[x.Sel.Name]; ok {
+				return v
+			}
+		}
 		return s.norm(x.X) + "." + x.Sel.Name
 	case *ast.CallExpr:
 		var as []string
@@ -100,6 +108,90 @@ func (s *asym) norm(e ast.Expr) string {
 	}
 	s.fail("unsupported expression %s", types.ExprString(e))
 	return "?"
+}
+
+// structFields: the fields of a struct value that is a key record — a composite literal, a call of a repository
+// function whose body is (simple assignments and) one return of such a literal, or a name bound to one.
+func (s *asym) structFields(e ast.Expr) (map[string]string, bool) {
+	switch x := ast.Unparen(e).(type) {
+	case *ast.Ident:
+		fm, ok := s.fields[objOf(s.info, x)]
+		return fm, ok
+	case *ast.UnaryExpr:
+		if x.Op == token.AND {
+			return s.structFields(x.X)
+		}
+	case *ast.CompositeLit:
+		fm := map[string]string{}
+		for _, el := range x.Elts {
+			kv, ok := el.(*ast.KeyValueExpr)
+			if !ok {
+				return nil, false
+			}
+			k, ok := kv.Key.(*ast.Ident)
+			if !ok {
+				return nil, false
+			}
+			fm[k.Name] = s.norm(kv.Value)
+		}
+		return fm, len(fm) > 0
+	case *ast.CallExpr:
+		if s.depth > 4 {
+			return nil, false
+		}
+		fn, _ := typeutil.Callee(s.info, x).(*types.Func)
+		if fn == nil || fn.Pkg() == nil || !load.IsRepoPkg(fn.Pkg()) {
+			return nil, false
+		}
+		pk := s.a.P.Pkgs[load.ShortPkg(fn.Pkg())]
+		if pk == nil {
+			return nil, false
+		}
+		var decl *ast.FuncDecl
+		for _, f := range pk.Syntax {
+			for _, d := range f.Decls {
+				if fd, ok := d.(*ast.FuncDecl); ok && pk.TypesInfo.Defs[fd.Name] == fn {
+					decl = fd
+				}
+			}
+		}
+		if decl == nil || decl.Body == nil || decl.Recv != nil || len(decl.Body.List) == 0 {
+			return nil, false
+		}
+		sub := &asym{a: s.a, info: pk.TypesInfo, env: map[types.Object]string{}, bind: map[types.Object]string{}, fields: map[types.Object]map[string]string{}, depth: s.depth + 1}
+		i := 0
+		for _, f := range decl.Type.Params.List {
+			for _, n := range f.Names {
+				if i < len(x.Args) {
+					sub.bind[pk.TypesInfo.Defs[n]] = s.norm(x.Args[i])
+					if fm, ok := s.structFields(x.Args[i]); ok {
+						sub.fields[pk.TypesInfo.Defs[n]] = fm
+					}
+				}
+				i++
+			}
+		}
+		if i != len(x.Args) {
+			return nil, false
+		}
+		for _, st := range decl.Body.List[:len(decl.Body.List)-1] {
+			as, ok := st.(*ast.AssignStmt)
+			if !ok || as.Tok != token.DEFINE {
+				return nil, false
+			}
+			sub.assign(as)
+		}
+		ret, ok := decl.Body.List[len(decl.Body.List)-1].(*ast.ReturnStmt)
+		if !ok || len(ret.Results) != 1 || sub.err != "" {
+			return nil, false
+		}
+		fm, ok := sub.structFields(ret.Results[0])
+		if sub.err != "" {
+			return nil, false
+		}
+		return fm, ok
+	}
+	return nil, false
 }
 
 func swapAB(t string) string {
@@ -319,12 +411,15 @@ func (s *asym) inline(fn *types.Func, call *ast.CallExpr) []apath {
 		s.fail("comparator helper %s has no analysable body", fn.Name())
 		return nil
 	}
-	sub := &asym{a: s.a, info: pk.TypesInfo, env: map[types.Object]string{}, bind: map[types.Object]string{}, depth: s.depth + 1}
+	sub := &asym{a: s.a, info: pk.TypesInfo, env: map[types.Object]string{}, bind: map[types.Object]string{}, fields: map[types.Object]map[string]string{}, depth: s.depth + 1}
 	i := 0
 	for _, f := range decl.Type.Params.List {
 		for _, n := range f.Names {
 			if i < len(call.Args) {
 				sub.bind[pk.TypesInfo.Defs[n]] = s.norm(call.Args[i])
+				if fm, ok := s.structFields(call.Args[i]); ok {
+					sub.fields[pk.TypesInfo.Defs[n]] = fm
+				}
 			}
 			i++
 		}
@@ -444,6 +539,9 @@ func (s *asym) assign(as *ast.AssignStmt) {
 		for i, l := range as.Lhs {
 			if id, ok := l.(*ast.Ident); ok && id.Name != "_" {
 				s.env[s.info.Defs[id]] = s.norm(as.Rhs[i])
+				if fm, ok := s.structFields(as.Rhs[i]); ok {
+					s.fields[s.info.Defs[id]] = fm
+				}
 			}
 		}
 	case len(as.Lhs) == 2 && len(as.Rhs) == 1:
@@ -496,7 +594,7 @@ func identifying(x, y string) bool {
 // comparatorPaths unfolds the comparator; decides totality (no path returns 0 for different elements)
 // and antisymmetry on the same paths.
 func (a *Analyzer) comparatorPaths(info *types.Info, fl *ast.FuncLit, params []types.Object) (bool, string) {
-	s := &asym{a: a, info: info, pa: params[0], pb: params[1], env: map[types.Object]string{}, bind: map[types.Object]string{}}
+	s := &asym{a: a, info: info, pa: params[0], pb: params[1], env: map[types.Object]string{}, bind: map[types.Object]string{}, fields: map[types.Object]map[string]string{}}
 	paths := s.block(fl.Body.List, [][]alit{{}}, nil)
 	if s.err != "" {
 		return false, "the comparator cannot be unfolded into paths: " + s.err
